@@ -491,7 +491,9 @@ PROPS["C19"] = {
                    "the delegation tree); hence a copy of a loaded repository made by a `cache` that succeeded loads exactly like "
                    "the original, with the root chain from the shipped root (copy_of_loaded_repository_loads_alike) and without it "
                    "from the trusted root (copy_without_chain_loads_alike), provided the source has no later root version; the "
-                   "copy answers only for copied files (cachedServer_get, copy_serves_only_copied); with the chain requested every "
+                   "copy answers only for copied files (cachedServer_get, copy_serves_only_copied); composed with C10, a copy (without "
+                   "chain) of what the editor published loads with exactly the signed root, timestamp, snapshot and tree "
+                   "(copy_of_published_repository_loads); with the chain requested every "
                    "root version 1..trusted is among the copied files (root_chain_complete). Correspondence: which metadata files "
                    "are copied, whether `cache` succeeds, and what loading the copy yields, vs the model; the property is "
                    "evaluated directly on the directories.",
